@@ -213,3 +213,80 @@ func (e *Engine) checkPoolSizesPositive(r *Report, rule string) {
 			res.Evals, fmt.Sprintf("%d success path classes (each must carry `%s > 0`), %d refusing path classes", nSucc, opt, nErr))
 	}
 }
+
+// checkOptionPositive: package main fills client.Conf.<field> from an option
+// that setDefaults leaves positive on every success path (same three links as
+// checkPoolSizesPositive, for an option that sizes something other than a pool).
+func (e *Engine) checkOptionPositive(r *Report, rule, field, why string) {
+	setDef := needFn(e, r, rule, "main.(*clientApp).setDefaults")
+	if setDef == nil {
+		return
+	}
+	var opts []string
+	for _, fn := range e.FuncsIn("main") {
+		Instrs(fn, func(in ssa.Instruction) {
+			st, ok := in.(*ssa.Store)
+			if !ok {
+				return
+			}
+			fa, ok := st.Addr.(*ssa.FieldAddr)
+			if !ok {
+				return
+			}
+			fv := fieldVar(fa.X, fa.Field)
+			if fv == nil || fv.Name() != field || !strings.HasSuffix(strings.TrimPrefix(fa.X.Type().String(), "*"), "client.Conf") {
+				return
+			}
+			opts = append(opts, e.Canon(st.Val))
+		})
+	}
+	construct := "client.Conf." + field + " is filled from an option that is positive"
+	if len(opts) != 1 || !strings.HasPrefix(opts[0], "p0.conf.") {
+		r.Bad(rule, construct, "main", fmt.Sprintf("expected exactly one store of a source option into client.Conf.%s, found %v", field, opts), 1)
+		return
+	}
+	opt := opts[0]
+	q := regexp.QuoteMeta(opt)
+	posCond := regexp.MustCompile(`^\((?:` + q + ` != 0|0 != ` + q + `|` + q + ` > 0|0 < ` + q + `|` + q + ` >= 1|1 <= ` + q + `)\)$`)
+	posStore := regexp.MustCompile(`^store\(` + q + ` = ([1-9][0-9]*)\)$`)
+	anyStore := regexp.MustCompile(`^store\(` + q + ` = `)
+	nonNil := regexp.MustCompile(`^\((.*) != nil\)$`)
+	cls := func(ev *Event) (add, kill []string) {
+		switch ev.Kind {
+		case EvCond:
+			if posCond.MatchString(ev.Str) {
+				add = append(add, "positive")
+			}
+			if m := nonNil.FindStringSubmatch(ev.Str); m != nil {
+				add = append(add, "nonnil:"+m[1])
+			}
+		case EvInstr:
+			if posStore.MatchString(ev.Str) {
+				add = append(add, "positive")
+			} else if anyStore.MatchString(ev.Str) {
+				kill = append(kill, "positive")
+			}
+		}
+		return
+	}
+	res := e.Flow(setDef, FlowOpts{Classify: cls, Target: isReturn})
+	okAll, nSucc := !res.Undecided, 0
+	for in, ws := range res.At {
+		ret := in.(*ssa.Return)
+		rv := ""
+		if len(ret.Results) > 0 {
+			rv = e.Canon(ret.Results[len(ret.Results)-1])
+		}
+		for _, w := range ws {
+			if strings.HasPrefix(rv, "call(fmt.Errorf)") || strings.HasPrefix(rv, "call(errors.New)") || w.Has("nonnil:"+rv) {
+				continue
+			}
+			nSucc++
+			if !w.Has("positive") {
+				okAll = false
+			}
+		}
+	}
+	r.Check(okAll && nSucc > 0, rule, construct, e.Pos(setDef.Pos()),
+		"setDefaults can return without an error with "+opt+" still zero: "+why, res.Evals, fmt.Sprintf("%d success path classes (each must carry `%s > 0`)", nSucc, opt))
+}
